@@ -23,7 +23,7 @@ CHECKS['C01'] = dict(
     ref="DESIGN.md §4 C01")
 CHECKS['C15'] = dict(
     text="Lean theorems probe_complete / probe_prefix (decode_full_length returns the full message length for EVERY prefix that contains the identifier and length octets and 'unknown' for every shorter one, for all valid identifier and definite length octets incl. padded long forms), encTag_valid, encLength_valid; "
-         "exact correspondence on every prefix of synthetic TLVs (tags to 2^28, lengths to 70000, padded long forms) and decode_with_length on typed messages.",
+         "exact correspondence on every prefix of synthetic TLVs (tags to 2^28, lengths to 70000, padded long forms) and decode_with_length on typed messages, on their other BER forms (segmented strings incl. zero segments, padded and inner indefinite lengths) and on messages of a newer version of the type.",
     note=NOTE_COMMON + "decode_with_length on typed values: C01b round-trip theorems with remaining input + direct evaluation.",
     technique="Lean 4 proof (all identifier / length octets, all prefixes) + exhaustive-prefix correspondence",
     ref="DESIGN.md §4 C15")
@@ -64,14 +64,14 @@ CHECKS['C18'] = dict(
 CHECKS['C03'] = dict(
     text="Lean theorems der_refines (the code model Der equals the specification encoder X690.derEncode written from X.690 clauses 8/10/11, for all types/values outside named deviation predicates), "
          "der_canonical (equal abstract values give identical octets), der_tlv_shape (one definite TLV with minimal length octets) and der_roundtrip; implementation bytes are compared with S and M on every generated case; "
-         "SET / SET OF ordering (outside the Lean universe) is compared with an independent DER encoder in the harness, including re-ordered presentations of equal values.",
+         "SET / SET OF ordering, explicit tagging in every tagging environment, one named type used in several contexts and the time types (all outside the Lean universe) are compared with an independent X.690 encoder in the harness, including re-ordered presentations of equal values.",
     note=NOTE_COMMON + "Partial: SET, SET OF, REAL, time types, named bits are checked against the harness encoder only (no Lean model).",
     technique="Lean 4 proof (M = S refinement, canonicity, TLV shape) + byte-exact differential check",
     ref="DESIGN.md §4 C03")
 CHECKS['C04'] = dict(
     text="Lean theorem complete: every byte string accepted by the spec-level reference decoder X690.berDecodeRef (any definite length form incl. padded, indefinite length + EOC on any constructed node, "
          "arbitrarily nested constructed strings) is decoded by the BER code model to the same value, outside the named deviation predicate; encoder_in_spec: encoder outputs are in that relation. "
-         "Every variant produced by the independent TLV rewriter is certified by the reference decoder before it is given to the real decoder.",
+         "Every variant produced by the independent TLV rewriter is certified by the reference decoder before it is given to the real decoder; for explicitly tagged types (outside the Lean universe) the variants are built from the shape of an independent DER encoding and certified by an independent BER reader.",
     note=NOTE_COMMON + "Partial: SET permutation is not in the Lean universe (no SET); content octets of primitives are as the DER encoder writes them.",
     technique="Lean 4 proof (completeness w.r.t. a reference decoder) + model-certified metamorphic variants",
     ref="DESIGN.md §4 C04")
@@ -118,7 +118,7 @@ CHECKS['C13'] = dict(
     technique="Lean 4 proof (idempotence and history absorption of the modelled rewrite, induction over modules/descriptors) + dictionary-exact differential correspondence + history-vs-fresh behavioural comparison",
     ref="DESIGN.md §4 C13")
 CHECKS['C19'] = dict(
-    text="Lean theorem run_permutation: the dictionary rewrite commutes with EVERY reordering of the type assignments of a module (for all dictionaries, other modules unrestricted), so compiled behaviour cannot depend on assignment order through the rewrite; "
+    text="Lean theorems run_extensibility_implied (C19e.lean: after the rewrite every SEQUENCE / SET / CHOICE at any depth — members, groups, elements of SEQUENCE OF — of every type of an EXTENSIBILITY IMPLIED module carries an extension marker, for ALL dictionaries; the statement was false of the code before repair 79a5abf) and run_permutation: the dictionary rewrite commutes with EVERY reordering of the type assignments of a module (for all dictionaries, other modules unrestricted), so compiled behaviour cannot depend on assignment order through the rewrite; "
          "module_order_matters is the closed witness of the recorded module-order defect. The rewrite model is tied to the code by dictionary-exact correspondence on every arrangement text; the remaining reorganisations "
          "(inline/extract references, split into modules with IMPORTS, file order, constraints on references) are decided by direct comparison of bytes and decoded values across arrangements rendered from one AST on all 8 codecs, with arrangement 0 also compared with the Lean codec models.",
     note=NOTE_COMMON + "Partial: only assignment reordering is proved; reference inlining/extraction, module splitting and EXTENSIBILITY IMPLIED arrangements are evaluated, not proved (the compiler's reference resolution after pre_process is not modelled). "
